@@ -7,15 +7,193 @@ From LN Require Import C05_Defs C05_Proofs.
 Import ListNotations.
 Local Open Scope Q_scope.
 
+(* ---- definitions -----------------------------------------------------------------------------------------
+   [es] is the list of evaluated constraints (is_equality, value, gradient) in registration order, [f0] = (f(x),
+   grad f(x)); [eqs]/[ineqs] select the equalities / inequalities. The loops of penalty.cpp return exactly
+     f + rho sum|h_j| + rho sum max(0,g_i),   f + rho sum h_j^2 + rho sum max(0,g_i)^2,
+     f + rho/2 sum (h_j + lambda_j/rho)^2 + rho/2 sum max(0, g_i + miu_i/rho)^2
+   and every gradient component is the matching sum (sgn(0) = +1, pos(v) = [v > 0]: the sub-gradient the code picks). *)
+Theorem C05_defs_linear : forall rho f0 es,
+  fst (linear_penalty rho f0 es) ==
+    fst f0 + rho * qsum (map (fun e => qabs (ce_val e)) (eqs es))
+           + rho * qsum (map (fun e => qmax 0 (ce_val e)) (ineqs es)) /\
+  (forall j, vnth (snd (linear_penalty rho f0 es)) j ==
+    vnth (snd f0) j + rho * qsum (map (fun e => sgn (ce_val e) * vnth (ce_grad e) j) (eqs es))
+                    + rho * qsum (map (fun e => pos (ce_val e) * vnth (ce_grad e) j) (ineqs es))).
+Proof. exact defs_linear. Qed.
+Print Assumptions C05_defs_linear.
+
+Theorem C05_defs_quadratic : forall rho f0 es,
+  fst (quadratic_penalty rho f0 es) ==
+    fst f0 + rho * qsum (map (fun e => ce_val e * ce_val e) (eqs es))
+           + rho * qsum (map (fun e => qmax 0 (ce_val e) * qmax 0 (ce_val e)) (ineqs es)) /\
+  (forall j, vnth (snd (quadratic_penalty rho f0 es)) j ==
+    vnth (snd f0) j + 2 * rho * qsum (map (fun e => ce_val e * vnth (ce_grad e) j) (eqs es))
+                    + 2 * rho * qsum (map (fun e => qmax 0 (ce_val e) * vnth (ce_grad e) j) (ineqs es))).
+Proof. exact defs_quadratic. Qed.
+Print Assumptions C05_defs_quadratic.
+
+(* [shifted rho (e, mu)] = value + mu / rho; the j-th equality is paired with lambda_j, the i-th inequality with
+   miu_i although the loop walks the constraints interleaved with two counters *)
+Theorem C05_defs_augmented : forall rho lambda miu f0 es,
+  length lambda = length (eqs es) -> length miu = length (ineqs es) ->
+  fst (augmented_lagrangian rho lambda miu f0 es) ==
+    fst f0 + (1 # 2) * rho * qsum (map (fun p => shifted rho p * shifted rho p) (combine (eqs es) lambda))
+           + (1 # 2) * rho * qsum (map (fun p => qmax 0 (shifted rho p) * qmax 0 (shifted rho p)) (combine (ineqs es) miu)) /\
+  (forall j, vnth (snd (augmented_lagrangian rho lambda miu f0 es)) j ==
+    vnth (snd f0) j + rho * qsum (map (fun p => shifted rho p * vnth (ce_grad (fst p)) j) (combine (eqs es) lambda))
+                    + rho * qsum (map (fun p => qmax 0 (shifted rho p) * vnth (ce_grad (fst p)) j) (combine (ineqs es) miu))).
+Proof. exact defs_augmented. Qed.
+Print Assumptions C05_defs_augmented.
+
+(* non-vacuity: a mix x0 = 1 violated inequality, 1 equality, 1 inactive inequality; the three values are
+   f + the penalty terms (f = 10, rho = 2: 10 + 2*3 + 2*|−1| = 18; 10 + 2*9 + 2*1 = 30; AL with lambda = 2, miu = (4, 2):
+   10 + (3+2)^2 + (−1+1)^2 + max(0,−5+1)^2 = 35) *)
+Example C05_defs_nonvacuous :
+  let es := [mkcev false 3 [1; 0]; mkcev true (-1) [0; 1]; mkcev false (-5) [1; 1]] in
+  length [2] = length (eqs es) /\ length [4; 2] = length (ineqs es) /\
+  fst (linear_penalty 2 (10, [0; 0]) es) == 18 /\ fst (quadratic_penalty 2 (10, [0; 0]) es) == 30 /\
+  fst (augmented_lagrangian 2 [2] [4; 2] (10, [0; 0]) es) == 35 /\
+  vnth (snd (augmented_lagrangian 2 [2] [4; 2] (10, [0; 0]) es)) 0 == 10 /\
+  vnth (snd (augmented_lagrangian 2 [2] [4; 2] (10, [0; 0]) es)) 1 == 0.
+Proof. vm_compute. repeat split. Qed.
+
+(* ---- the gradient of every non-functional constraint kind is the derivative of its value --------------------
+   exact expansion c(x + d) = c(x) + grad c(x).d + remainder(d) with remainder 0 (bounds, linear), |d|^2 (ball),
+   1/2 d.Pd (quadratic, P symmetric as a bilinear form); bound kinds: the gradient is the signed unit vector *)
+Theorem C05_grad_is_derivative : forall c x d, well_formed c (length x) -> length d = length x ->
+  fst (cvgrad c (vadd x d)) == fst (cvgrad c x) + directional c x d + remainder c d.
+Proof. exact grad_is_derivative. Qed.
+Print Assumptions C05_grad_is_derivative.
+
+Theorem C05_bound_gradients : forall v k x j,
+  vnth (snd (cvgrad (CConstant v k) x)) j = (if (j <? length x)%nat && (j =? k)%nat then 1 else 0) /\
+  vnth (snd (cvgrad (CMaximum v k) x)) j = (if (j <? length x)%nat && (j =? k)%nat then 1 else 0) /\
+  vnth (snd (cvgrad (CMinimum v k) x)) j = (if (j <? length x)%nat && (j =? k)%nat then -1 else 0).
+Proof. exact bound_gradients. Qed.
+Print Assumptions C05_bound_gradients.
+
+Example C05_grad_nonvacuous_ball : well_formed (CBallIneq [1; 2] 3) (length [0; 0]).
+Proof. reflexivity. Qed.
+Example C05_grad_nonvacuous_quad : well_formed (CQuadEq [[2; 1]; [1; 3]] [1; 1] 5) (length [0; 0]).
+Proof.
+  split; [|reflexivity]. intros u v Hu Hv.
+  destruct u as [|a [|b [|]]]; try discriminate Hu. destruct v as [|c [|e [|]]]; try discriminate Hv.
+  simpl. ring.
+Qed.
+
+(* ... and the coefficient every branch of the three loops adds to the gradient is the derivative of the value it
+   adds, as a function of the constraint value t (then the chain rule with the theorem above): exact expansion for
+   the squares, tangent <= phi <= tangent + k s^2 for k max(0,t)^2, sub-gradient + derivative away from the kink for
+   k|t| and k max(0,t). [ty] with t + s <= ty: monotone composition with a convex constraint. *)
+Theorem C05_penalty_term_derivative :
+  (forall k t s, k * (t + s) * (t + s) == k * t * t + (2 * k * t) * s + k * s * s) /\
+  (forall k t s ty, 0 <= k -> t + s <= ty ->
+     k * qmax 0 t * qmax 0 t + (2 * k * qmax 0 t) * s <= k * qmax 0 ty * qmax 0 ty) /\
+  (forall k t s, 0 <= k ->
+     k * qmax 0 (t + s) * qmax 0 (t + s) <= k * qmax 0 t * qmax 0 t + (2 * k * qmax 0 t) * s + k * s * s) /\
+  (forall k v s, 0 <= k -> k * qabs v + (k * sgn v) * s <= k * qabs (v + s)) /\
+  (forall k v s, qabs s < qabs v -> k * qabs (v + s) == k * qabs v + (k * sgn v) * s) /\
+  (forall k v s vy, 0 <= k -> v + s <= vy -> k * qmax 0 v + (k * pos v) * s <= k * qmax 0 vy) /\
+  (forall k v s, qabs s < qabs v -> k * qmax 0 (v + s) == k * qmax 0 v + (k * pos v) * s).
+Proof.
+  exact (conj term_square (conj term_hinge_square (conj term_hinge_square_upper (conj term_abs_subgradient
+        (conj term_abs_derivative (conj term_hinge_subgradient term_hinge_derivative)))))).
+Qed.
+Print Assumptions C05_penalty_term_derivative.
+
+(* ---- feasible point, zero multipliers: the three functions coincide with the objective ---------------------- *)
+Theorem C05_feasible_coincide : forall rho lambda miu f0 es,
+  feasible es -> all_zero lambda -> all_zero miu ->
+  fst (linear_penalty rho f0 es) == fst f0 /\
+  fst (quadratic_penalty rho f0 es) == fst f0 /\
+  fst (augmented_lagrangian rho lambda miu f0 es) == fst f0 /\
+  (forall j, vnth (snd (quadratic_penalty rho f0 es)) j == vnth (snd f0) j) /\
+  (forall j, vnth (snd (augmented_lagrangian rho lambda miu f0 es)) j == vnth (snd f0) j) /\
+  (forall j, vnth (snd (linear_penalty rho f0 es)) j ==
+             vnth (snd f0) j + rho * qsum (map (fun e => vnth (ce_grad e) j) (eqs es))).
+Proof. exact feasible_coincide. Qed.
+Print Assumptions C05_feasible_coincide.
+
+(* the plain statement "gradient = objective's gradient" is false of the linear penalty (faithful model): at h = 0 the
+   code adds +rho grad h (a valid sub-gradient of rho|h|, not zero) *)
+Theorem C05_linear_feasible_grad_refuted :
+  exists rho f0 es, feasible es /\ ~ (forall j, vnth (snd (linear_penalty rho f0 es)) j == vnth (snd f0) j).
+Proof. exact linear_feasible_grad_refuted. Qed.
+Print Assumptions C05_linear_feasible_grad_refuted.
+
+Example C05_feasible_nonvacuous :
+  feasible [mkcev true 0 [1]; mkcev false (-2) [1]; mkcev false 0 [3]] /\ all_zero [0] /\ all_zero [0; 0].
+Proof. repeat constructor; try reflexivity; simpl; discriminate. Qed.
+
+(* ---- the convex flag ------------------------------------------------------------------------------------------
+   ::convex(function) is set iff the objective is flagged convex, every constraint is flagged convex and every
+   equality is a linear equality (constant_t / linear_equality_t: affine by C05_grad_is_derivative with remainder 0).
+   Under what the flags claim (objective convex between x and y = x + d; every inequality convex, every equality
+   affine along d: [along]) the sub-gradient inequality P(y) >= P(x) + G(x).d holds for the three objects
+   (rho >= 0, resp. rho > 0 for the augmented Lagrangian; any multipliers). *)
+Theorem C05_convex_flag :
+  (forall fconvex cos, pen_convex fconvex cos = true ->
+     fconvex = true /\
+     Forall (fun co => ct_convex co = true /\ (is_equality (fst co) = true -> is_linear_equality (fst co) = true)) cos) /\
+  (forall rho n d fx fy esx esy,
+     0 <= rho -> fst fx + dotn n (snd fx) d <= fst fy -> Forall2 (along n d) esx esy ->
+     fst (linear_penalty rho fx esx) + dotn n (snd (linear_penalty rho fx esx)) d <= fst (linear_penalty rho fy esy)) /\
+  (forall rho n d fx fy esx esy,
+     0 <= rho -> fst fx + dotn n (snd fx) d <= fst fy -> Forall2 (along n d) esx esy ->
+     fst (quadratic_penalty rho fx esx) + dotn n (snd (quadratic_penalty rho fx esx)) d <=
+     fst (quadratic_penalty rho fy esy)) /\
+  (forall rho lambda miu n d fx fy esx esy,
+     0 < rho -> fst fx + dotn n (snd fx) d <= fst fy -> Forall2 (along n d) esx esy ->
+     fst (augmented_lagrangian rho lambda miu fx esx) + dotn n (snd (augmented_lagrangian rho lambda miu fx esx)) d <=
+     fst (augmented_lagrangian rho lambda miu fy esy)).
+Proof. exact (conj pen_convex_spec (conj convex_linear (conj convex_quadratic convex_augmented))). Qed.
+Print Assumptions C05_convex_flag.
+
+(* non-vacuity: g(x) = x^2 - 1 (convex inequality) and h(x) = x - 2 (affine equality) at x = 0 and y = 3 (d = 3) *)
+Example C05_convex_nonvacuous :
+  Forall2 (along 1 [3]) [mkcev false (-1) [0]; mkcev true (-2) [1]] [mkcev false 8 [6]; mkcev true 1 [1]] /\
+  pen_convex true [(CBallIneq [0] 1, false); (CConstant 2 0, false)] = true /\
+  pen_convex true [(CBallEq [0] 1, true)] = false.
+Proof.
+  split; [|split; reflexivity].
+  repeat constructor; simpl; unfold dotn; simpl; vm_compute; intro H; discriminate H.
+Qed.
+
+(* ---- solver_state_t::update_constraints -------------------------------------------------------------------------
+   whatever m_ceq / m_cineq held before (stale values of another point), after the loop they are exactly the
+   equality / inequality constraint values at x in registration order, and the counters end at their sizes *)
+Theorem C05_state_constraints : forall cs x gx meq mineq ceq0 cineq0,
+  length ceq0 = length (eq_cs cs) -> length cineq0 = length (ineq_cs cs) ->
+  let s := update_constraints cs x gx meq mineq ceq0 cineq0 in
+  uc_ceq s = map (fun c => fst (cvgrad c x)) (eq_cs cs) /\
+  uc_cineq s = map (fun c => fst (cvgrad c x)) (ineq_cs cs) /\
+  uc_ie s = length ceq0 /\ uc_ii s = length cineq0.
+Proof. exact state_constraints. Qed.
+Print Assumptions C05_state_constraints.
+
+(* the feasibility KKT residuals (tests 1 and 2) are <= eps iff every |h_j| <= eps and every max(g_i, 0) <= eps *)
+Theorem C05_kkt_feasibility : forall eps ceq cineq, 0 <= eps ->
+  (kkt2 ceq <= eps /\ kkt1 cineq <= eps <->
+   Forall (fun h => qabs h <= eps) ceq /\ Forall (fun g => qmax g 0 <= eps) cineq).
+Proof. exact kkt_feasibility. Qed.
+Print Assumptions C05_kkt_feasibility.
+
+Example C05_state_nonvacuous :
+  let cs := [CMaximum 1 0; CLinEq [1; 1] (-2); CBallIneq [0; 0] 1] in
+  length [77] = length (eq_cs cs) /\ length [77; 77] = length (ineq_cs cs) /\
+  uc_ceq (update_constraints cs [3; 4] [0; 0] [0] [0; 0] [77] [77; 77]) = [3 * 1 + (4 * 1 + 0) + -2] /\
+  kkt2 [5] == 5 /\ kkt1 [-3; 2] == 2.
+Proof. vm_compute. repeat split; intro H; discriminate H. Qed.
+
 (* ---- the augmented-Lagrangian outer loop ---------------------------------------------------------------
-   For every instantiation R of the rounded operations that keeps signs (IEEE round-to-nearest does), every
-   parameter set the solver accepts (gamma > 1, miu_max >= 0), every starting state and EVERY sequence of
-   inner-solver results (oracle history: points, constraint values, validity flags, the dx-convergence flag):
-   if the loop ends with status `converged` then every |h_j| <= eps and every max(g_i, 0) <= eps for the
-   constraint values stored in the returned state, and the returned (x, ceq, cineq) is the initial one or exactly
-   what one of the inner runs delivered. *)
+   For EVERY instantiation R of the rounded operations (no hypothesis: |max(g, sh)| >= max(g, 0) whatever the shift
+   -miu/ro evaluates to), every parameter set, every starting state and EVERY sequence of inner-solver results
+   (oracle history: points, constraint values, validity flags, the dx-convergence flag) with the same number of
+   inequalities: if the loop ends with status `converged` then every |h_j| <= eps and every max(g_i, 0) <= eps for
+   the constraint values stored in the returned state, and the returned (x, ceq, cineq) is the initial one or
+   exactly what one of the inner runs delivered (so, by C05_state_constraints, the constraint values at x). *)
 Theorem C05_al_feasible : forall R P x0 ceq0 cineq0 ro0 es,
-  rops_ok R -> params_ok P -> 0 < ro0 ->
   Forall (fun e => length (e_cineq e) = length cineq0) es ->
   let s := al_run R P (al_init R x0 ceq0 cineq0 ro0) es in
   (s_status s = Converged ->
@@ -25,14 +203,13 @@ Theorem C05_al_feasible : forall R P x0 ceq0 cineq0 ro0 es,
 Proof. exact al_feasible. Qed.
 Print Assumptions C05_al_feasible.
 
-(* non-vacuity: exact arithmetic satisfies the hypotheses on R; a two-iteration history in which the converging
-   iteration does NOT improve the criterion (so the best state is not updated) still ends `converged` *)
-Example C05_al_nonvacuous_rops : rops_ok exact_rops.
-Proof. exact exact_rops_ok. Qed.
+(* non-vacuity: a two-iteration history in which the converging iteration does NOT improve the criterion (so the best
+   state is not updated: it stays at the first inner solution) still ends `converged` *)
 Example C05_al_nonvacuous_run :
   let P := mkparams (1 # 10) (1 # 2) 10 100 (-100) 100 100 in
   let e1 := mkevent [1 # 20] [1 # 20] [-1] true false true in
   let e2 := mkevent [1 # 16] [1 # 16] [-1] true true true in
   let s := al_run exact_rops P (al_init exact_rops [1] [1] [-1] 1) [e1; e2] in
-  params_ok P /\ s_status s = Converged /\ s_x s = [1 # 20] /\ s_stopped s = true.
-Proof. vm_compute. repeat split; intro H; discriminate H. Qed.
+  Forall (fun e => length (e_cineq e) = length [-1]) [e1; e2] /\
+  s_status s = Converged /\ s_x s = [1 # 20] /\ s_stopped s = true.
+Proof. vm_compute. repeat split; repeat constructor. Qed.
